@@ -55,10 +55,13 @@ type Op struct {
 	// reopen after a crash in the middle of a part merge of the index table: which on-disk state was fabricated between close
 	// and open ("" = clean): A merged part in tmp, no transaction file yet; B transaction file written, nothing executed;
 	// C source part already removed, merged part still in tmp; D merged part renamed into place, transaction file still there
-	Crash string   `json:"crash,omitempty"`
-	Expr  *Expr    `json:"expr,omitempty"`
-	IDs   []uint64 `json:"ids,omitempty"`  // query: ids by the show-series/drop path (searchTSIDs)
-	IDs2  []uint64 `json:"ids2,omitempty"` // query: ids by the select path (SearchSeriesWithOpts)
+	Crash string `json:"crash,omitempty"`
+	// reopen: the index configuration of the new process: series-key bloom filter "on" / "off" ("" = unchanged). The first op
+	// of a case may be {op: "config", bf: ..}: the configuration the index is created with.
+	BF   string   `json:"bf,omitempty"`
+	Expr *Expr    `json:"expr,omitempty"`
+	IDs  []uint64 `json:"ids,omitempty"`  // query: ids by the show-series/drop path (searchTSIDs)
+	IDs2 []uint64 `json:"ids2,omitempty"` // query: ids by the select path (SearchSeriesWithOpts)
 	// list
 	Series []SeriesOut         `json:"series,omitempty"` // every listed series (one entry per id)
 	Values map[string][]string `json:"values,omitempty"` // tag key -> sorted distinct values
@@ -115,6 +118,7 @@ type Case struct {
 // the real index
 
 type env struct {
+	bf    bool // bloom-filter-enable of the index configuration used by the next open
 	dir   string
 	clock uint64
 	seq   *uint64
@@ -123,6 +127,9 @@ type env struct {
 }
 
 func (e *env) open() {
+	cfg := *config.GetIndexConfig()
+	cfg.BloomFilterEnabled = e.bf
+	config.SetIndexConfig(&cfg)
 	lock := ""
 	ident := &meta.IndexIdentifier{OwnerDb: "db0", OwnerPt: 1, Policy: "rp0"}
 	ident.Index = &meta.IndexDescriptor{IndexID: 2, IndexGroupID: 3, TimeRange: meta.TimeRangeInfo{}}
@@ -888,7 +895,14 @@ func (rn *runner) doReopen() {
 	if rn.g.r.Chance(1, 3) {
 		crash = gen.Pick(rn.g.r, []string{"A", "B", "C", "D"})
 	}
-	rn.doReopenCrash(crash)
+	bf := ""
+	if rn.g.r.Chance(1, 3) { // the process restarts with another configuration
+		bf = "on"
+		if rn.e.bf {
+			bf = "off"
+		}
+	}
+	rn.doReopenCfg(crash, bf)
 }
 
 var partDirRe = regexp.MustCompile(`^[0-9]+_[0-9]+_[0-9A-F]{16}$`)
@@ -991,8 +1005,13 @@ func (rn *runner) doBgFlush() {
 	rn.c.Ops = append(rn.c.Ops, Op{Op: "bgflush"})
 }
 
-func (rn *runner) doReopenCrash(crash string) {
+func (rn *runner) doReopenCrash(crash string) { rn.doReopenCfg(crash, "") }
+
+func (rn *runner) doReopenCfg(crash, bf string) {
 	must(rn.e.b.Close())
+	if bf != "" {
+		rn.e.bf = bf == "on"
+	}
 	if crash != "" && !fabricateMergeCrash(rn.e.dir, crash) {
 		crash = ""
 	}
@@ -1003,7 +1022,7 @@ func (rn *runner) doReopenCrash(crash string) {
 	ns := uint64(1000 + rn.g.r.Intn(50))
 	rn.e.seq = &ns
 	rn.e.open()
-	rn.c.Ops = append(rn.c.Ops, Op{Op: "reopen", Bump: uuidBase(rn.e.clock, ns) - old, Crash: crash})
+	rn.c.Ops = append(rn.c.Ops, Op{Op: "reopen", Bump: uuidBase(rn.e.clock, ns) - old, Crash: crash, BF: bf})
 }
 
 const probeMst = "zzprobe_0000"
@@ -1064,8 +1083,13 @@ func (rn *runner) finishAtoms() {
 func newRunner(r *gen.Rand, dir string, i int, kind string) *runner {
 	seq := uint64(1000)
 	e := &env{dir: dir, clock: 1, seq: &seq}
+	c := &Case{I: i, Kind: kind, Perl: perlMode, Oracle: []Fail{}, Atoms: []AtomTab{}}
+	if kind != "corpus" && r.Chance(1, 4) { // the index is created with the series-key bloom filter switched on
+		e.bf = true
+		c.Ops = append(c.Ops, Op{Op: "config", BF: "on"})
+	}
 	e.open()
-	return &runner{e: e, c: &Case{I: i, Kind: kind, Perl: perlMode, Oracle: []Fail{}, Atoms: []AtomTab{}}, g: &genState{r: r, byKey: map[string]*ser{}}, pats: map[string]bool{}}
+	return &runner{e: e, c: c, g: &genState{r: r, byKey: map[string]*ser{}}, pats: map[string]bool{}}
 }
 
 func genCase(r *gen.Rand, dir string, i int) *Case {
@@ -1188,7 +1212,7 @@ func genSweeps(r *gen.Rand, base string, idx *int) []*Case {
 	}
 	var out []*Case
 	for p := 0; p <= len(hist); p++ {
-		for _, kind := range []string{"clear", "flush", "flushclear", "reopen"} {
+		for _, kind := range []string{"clear", "flush", "flushclear", "reopen", "reopencfg"} {
 			dir := filepath.Join(base, fmt.Sprintf("s%d", *idx))
 			rn := newRunner(r.Fork(), dir, *idx, "sweep")
 			for k, h := range hist {
@@ -1365,6 +1389,48 @@ func genStale(r *gen.Rand, dir string, i int) *Case {
 	return rn.c
 }
 
+// genBigRows: one measurement with 70-150 series that share a tag value (the tag -> ids items of a value are merged into rows
+// of at most 64 ids at flush / reopen), unique hosts, and listings with a condition that selects single series - early ones,
+// late ones (their id sits in the second or third row of the shared value) - plus the same predicates as queries.
+func genBigRows(r *gen.Rand, dir string, i int) *Case {
+	rn := newRunner(r, dir, i, "bigrows")
+	mst := gen.Pick(r, msts)
+	n := r.Range(70, 150)
+	shared := gen.Pick(r, vals[:12])
+	var hosts []string
+	for k := 0; k < n; k++ {
+		h := fmt.Sprintf("h%03d", k)
+		hosts = append(hosts, h)
+		tags := [][2]string{{"host", h}, {"region", shared}}
+		if k%3 == 0 {
+			tags = append(tags, [2]string{"ü", gen.Pick(r, vals[:4])})
+		}
+		rn.doInsert(mst, tags)
+		if k == n/2 && r.Bool() {
+			rn.e.b.Flush()
+			rn.c.Ops = append(rn.c.Ops, Op{Op: "flush"})
+		}
+	}
+	rn.e.b.Flush()
+	rn.c.Ops = append(rn.c.Ops, Op{Op: "flush"})
+	if r.Bool() {
+		rn.doReopen()
+	}
+	for _, k := range []int{n - 1, n - 2, 64 + r.Intn(n-64), 65, r.Intn(64), 0} {
+		x := &Expr{T: "atom", K: "host", O: "eq", V: hosts[k]}
+		if r.Chance(1, 3) {
+			x = &Expr{T: "and", L: x, R: &Expr{T: "atom", K: "region", O: "eq", V: shared}}
+		}
+		rn.doCondList(mst, x)
+		rn.doQuery(mst, x)
+	}
+	rn.doCondList(mst, &Expr{T: "atom", K: "host", O: "re", V: "^h1"})
+	rn.doCondList(mst, nil)
+	rn.finishAtoms()
+	must(rn.e.b.Close())
+	return rn.c
+}
+
 // pairsCase: a fixed series set and, for a few texts, every ordered pair of operators (= != =~ !~) on the same key and text,
 // the two queries back to back on both search paths with the caches emptied before each pair: whatever is cached for the first
 // filter must not answer the second one.
@@ -1411,6 +1477,16 @@ func (rn *runner) maintenance(kind string) {
 		rn.c.Ops = append(rn.c.Ops, Op{Op: "clear"})
 	case "reopen":
 		rn.doReopen()
+	case "reopencfg":
+		// restart with the bloom filter switched the other way, then drop the key cache: the next insert of a known key has to
+		// find it in the table whatever the filter says
+		bf := "on"
+		if rn.e.bf {
+			bf = "off"
+		}
+		rn.doReopenCfg("", bf)
+		must(rn.e.b.ClearCache())
+		rn.c.Ops = append(rn.c.Ops, Op{Op: "clear"})
 	}
 }
 
@@ -1428,7 +1504,14 @@ func replayCase(in *Case, dir string, i int) *Case {
 			must(rn.e.b.ClearCache())
 			rn.c.Ops = append(rn.c.Ops, Op{Op: "clear"})
 		case "reopen":
-			rn.doReopenCrash(op.Crash)
+			rn.doReopenCfg(op.Crash, op.BF)
+		case "config":
+			// the configuration the index of this case is created with: nothing has been written yet, so open it anew
+			must(rn.e.b.Close())
+			os.RemoveAll(rn.e.dir)
+			rn.e.bf = op.BF == "on"
+			rn.e.open()
+			rn.c.Ops = append(rn.c.Ops, Op{Op: "config", BF: op.BF})
 		case "bgflush":
 			rn.doBgFlush()
 		case "query":
@@ -1517,6 +1600,17 @@ func main() {
 		for k := 0; k < ndense; k++ {
 			dir := filepath.Join(base, fmt.Sprintf("d%d", idx))
 			gen.Emit(genDense(rd.Fork(), dir, idx))
+			os.RemoveAll(dir)
+			idx++
+		}
+		nbig := 2
+		if gen.Tier() != "quick" {
+			nbig = 12
+		}
+		rb := gen.FromEnv(15)
+		for k := 0; k < nbig; k++ {
+			dir := filepath.Join(base, fmt.Sprintf("b%d", idx))
+			gen.Emit(genBigRows(rb.Fork(), dir, idx))
 			os.RemoveAll(dir)
 			idx++
 		}
